@@ -33,9 +33,42 @@ def run_balance(ctx, rid, fns, committers, want_kinds=None):
     for k, c in committers.items():
         effects[k] = c["deltas"]
     nsites = 0
+    # the balance follows calls itself: it works on the functions as written (before new helpers were spliced into
+    # their callers), and on the new helpers as functions of their own
+    from ..inline import known_functions
+    known = known_functions() or set()
+    raw = getattr(prog, "raw_fns", {})
+    crates = {k.split("::", 1)[0] for k, _ in fns}
+    fns = [(k, raw.get(k, f)) for k, f in fns]
+    have = {k for k, _ in fns}
+    fns += [(k, g) for k, g in getattr(prog, "helper_bodies", {}).items() if k.split("::", 1)[0] in crates and k not in have]
+    # a function that is new to the reviewed tree and leaves moves made (a helper that plays the move for its
+    # caller, a closure handed to Option::map) has no reviewed contract: it is not judged, and neither are the
+    # functions that call it or build it - the outcome it leaves depends on which way it returned
+    auto = {}
     for key, f in fns:
-        if key in (B.MAKE, B.UNMAKE):
+        if key in known or key in (B.MAKE, B.UNMAKE) or key in committers:
             continue
+        fb = B.FnBalance(f, effects)
+        for root, sites in fb.sites.items():
+            if B.rootedness(f, root) == "owned":
+                continue
+            results, overflow = fb.explore(root)
+            if overflow or any(cnt != 0 for cnt, rk, rb, path in results):
+                auto[key] = sorted({cnt for cnt, rk, rb, path in results}) or [0, 1]
+    for key in sorted(auto):
+        ctx.lost(rid, "%s is new and leaves moves made on its caller's board (%s): no reviewed contract" % (key.split("::", 1)[-1], auto[key]))
+    effects2 = dict(effects)
+    effects2.update(auto)
+    for key, f in fns:
+        if key in (B.MAKE, B.UNMAKE) or key in auto:
+            continue
+        if auto:
+            uses = any(bb_["term"]["k"] == "call" and bb_["term"]["callee"].get("key") in auto for bb_ in f["blocks"]) or \
+                any(st_["rv"]["op"] == "agg" and st_["rv"].get("kind") == "closure" and st_["rv"].get("closure") in auto for bb_ in f["blocks"] for st_ in bb_["stmts"])
+            if uses:
+                ctx.lost(rid, "%s relies on a new function that leaves moves made (no reviewed contract to compose)" % key.split("::", 1)[-1])
+                continue
         fb = B.FnBalance(f, effects)
         if not fb.sites:
             continue
